@@ -74,7 +74,7 @@ func TestC04(t *testing.T) {
 		h := GenHistory(c.R, g, []canon.Signal{canon.Traces}, 4, 16)
 		rt(c, h, o, canon.Traces)
 		if c.Idx%97 == 0 {
-			c.Sample(map[string]any{"options": o.String(), "script": h.Script, "batches": len(h.Batches)})
+			c.Sample(map[string]any{"options": o.String(), "script": h.Script, "batches": h.Len()})
 		}
 	})
 	for _, sig := range []canon.Signal{canon.Logs, canon.Metrics} {
@@ -112,7 +112,7 @@ func TestC04(t *testing.T) {
 		high := e.Thorough() && (c.Idx/24)%2 == 1
 		nb, n := 4, 22000
 		if high {
-			n, nb = 60000, 9 // pool grows by n/8 per batch; a batch must stay <= 65,535 items (domain)
+			n, nb = 30000, 11 // pool grows by n/4 per batch: 67,500 values after nine batches
 			o.Reset = []float64{0.3, 1}[(c.Idx/3)%2]
 		}
 		h := RampHistory(c.R, sig, nb, n, high)
